@@ -36,6 +36,79 @@ def finish_session(lines, evs, text, seed, tags=(), extra_classes=()):
     return {'log': evs, 'text': text, 'classes': sorted(gen.doc_classes(lines) | set(extra_classes)), 'seed': seed, 'tags': list(tags)}
 
 
+def reuse_probe(doc, seed, evs, name, profile='main', need='wider', ranged=False, spine_types=None, frm=1, snap=None, **mk):
+    """ONE Exporter and ONE ExportOptions object (the caller's own) serve the document, ANOTHER document (wider, or with more
+    measures) and the document again, without being touched in between; every export must be what kp.dumps returns for the same
+    options.  Logged as a comparison between real outputs (flag `name`)."""
+    import kernpy as kp
+    n = len(doc.get_spine_ids())
+    M = len(doc.measure_start_tree_stages)
+    if ranged and M < 1:
+        return
+    other = None
+    for k in range(1, 10):
+        r2, lines2, types2 = make_doc(seed * 31 + k, profile, **mk)
+        try:
+            cand, _ = kp.loads(session.render(lines2))
+        except Exception:  # noqa
+            continue
+        if (need == 'wider' and len(types2) > n) or (need == 'more_measures' and len(cand.measure_start_tree_stages) > M):
+            other = cand
+            break
+    if other is None:
+        return
+    kw = {}
+    opts = kp.ExportOptions()
+    if spine_types is not None:
+        opts.spine_types = list(spine_types)
+        kw['spine_types'] = list(spine_types)
+    if ranged:
+        opts.from_measure, opts.to_measure = min(frm, M), M
+        kw.update(from_measure=min(frm, M), to_measure=M)
+    ex = kp.Exporter()
+
+    def out(f):
+        try:
+            return ('ok', f())
+        except Exception as e:  # noqa
+            return ('exc', type(e).__name__)
+    ok = True
+    for d in (doc, other, doc):
+        a = out(lambda: ex.export_string(d, opts))
+        b = out(lambda: kp.dumps(d, **kw))
+        ok = ok and a == b
+    evs.append({'ev': 'call', 'op': 'flag', 'name': name, 'value': ok, 'args': {}, 'snap': session.snapshot(doc) if snap is None else snap})
+
+
+def long_repetition_probe(seed, evs, what, target_rows=1150):
+    """A score of more than a thousand lines (deeper than Python's default recursion limit) built as K repetitions of the body of a short
+    single-spine score: its export / token listing must be the short score's, with the body K times.  A comparison between real
+    outputs (the short score's own answers are validated by TLC in the main populations), logged as a flag."""
+    import kernpy as kp
+    r, lines, types = make_doc(seed * 17 + 3, 'main', max_rows=8, min_rows=4, max_spines=1, kern_only=True, splits=False, chords='core',
+                               pre_comments=False, post_comments=False, mid_comments=False)
+    block = lines[1:-1]
+    if not block:
+        return
+    K = max(2, -(-target_rows // len(block)))
+    try:
+        short, _ = kp.loads(session.render(lines))
+        big, _ = kp.loads(session.render([lines[0]] + block * K + [lines[-1]]))
+        if what == 'dumps':
+            g = session.grid_of(kp.dumps(short))
+            ok = session.grid_of(kp.dumps(big)) == g[:1] + g[1:-1] * K + g[-1:]
+            name = 'dumps.grid_of_a_very_long_score_is_the_repetition_of_its_block'
+        else:
+            t = [(x.category.name, x.encoding) for x in short.get_all_tokens()]
+            ok = [(x.category.name, x.encoding) for x in big.get_all_tokens()] == t[:1] + t[1:-1] * K + t[-1:]
+            ok = ok and len(big.get_unique_token_encodings()) == len(short.get_unique_token_encodings()) and bool(kp.is_monophonic(big)) == bool(kp.is_monophonic(short))
+            name = 'listing.of_a_very_long_score_is_the_repetition_of_its_block'
+    except Exception:  # noqa
+        ok = False
+        name = ('dumps.grid' if what == 'dumps' else 'listing.') + '_very_long_score_raised'
+    evs.append({'ev': 'call', 'op': 'flag', 'name': name, 'value': ok, 'args': {}, 'snap': evs[-1].get('snap', '') if evs else ''})
+
+
 def features(lines):
     """tags describing what a document exercises (for the non-triviality counts)."""
     tags = set()
@@ -60,12 +133,25 @@ def features(lines):
 # ------------------------------------------------------------------------------------------------
 # C03 / C01
 # ------------------------------------------------------------------------------------------------
-def sess_c03(seed, profile='main'):
-    r, lines, types = make_doc(seed, profile)
+def sess_c03(seed, profile='main', dots=False):
+    if dots:
+        # cells that LOOK like null tokens but are not ('...', '..', '.*'): verbatim, and their lines are not all-null lines
+        saved = dict(gen.OWNPOOL)
+        try:
+            for k in list(gen.OWNPOOL):
+                gen.OWNPOOL[k] = ['...', '..', 'la', '....']
+            r, lines, types = make_doc(seed, profile, max_rows=12, first_kern=0.8, types=['**text', '**dynam', '**harm', '**fing'], nonkern_tandem=False)
+        finally:
+            gen.OWNPOOL.update(saved)
+    else:
+        r, lines, types = make_doc(seed, profile)
     evs, doc, text = session.record_import(lines)
     if doc is not None:
         evs.append(session.record_call(doc, {'op': 'dumps', 'args': session.dumps_args(), 'exact': True}))
         evs.append(session.record_call(doc, {'op': 'dumps', 'args': session.dumps_args(enc='ekern'), 'exact': True}))
+        reuse_probe(doc, seed, evs, 'dumps.grid_same_with_reused_exporter_and_options_on_a_wider_document', profile=profile, need='wider', max_rows=8)
+        if seed % 40 == 0:
+            long_repetition_probe(seed, evs, 'dumps')
     return finish_session(lines, evs, text, seed, features(lines))
 
 
@@ -129,9 +215,19 @@ def agn_classes(lines, cats_sel=None):
     return cl
 
 
-def sess_c04(seed, profile='main'):
-    r, lines, types = make_doc(seed, profile)
+def sess_c04(seed, profile='main', own_types=False):
+    if own_types:
+        # spine types of the user's own whose names begin with the letters of an encoding prefix (e, b, be, a, ae): the header is
+        # '**' + prefix + original type all the same ('**embel' in eKern is '**eembel')
+        r, lines, types = make_doc(seed, profile, max_rows=10, first_kern=0.7, types=['**embel', '**beats', '**artic', '**aeon', '**bow', '**text'])
+    else:
+        r, lines, types = make_doc(seed, profile)
     evs, doc, text = session.record_import(lines)
+    if doc is not None and own_types:
+        ts = sorted(set(types))
+        for inc, exc in [KEEP_DUR_OR_PITCH[0]] + r.sample(KEEP_DUR_OR_PITCH[1:], 1):
+            six_encodings(doc, evs, inc, exc, types=ts, form=r.randrange(6))
+        return finish_session(lines, evs, text, seed, features(lines) | {'own-spine-types'}, agn_classes(lines))
     if doc is not None:
         for inc, exc in [KEEP_DUR_OR_PITCH[0]] + r.sample(KEEP_DUR_OR_PITCH[1:], 2):
             six_encodings(doc, evs, inc, exc, form=r.randrange(6))
@@ -191,8 +287,18 @@ def subsets(xs):
     return [list(c) for n in range(len(xs) + 1) for c in itertools.combinations(xs, n)]
 
 
-def sess_c06(seed, profile='main'):
-    r, lines, types = make_doc(seed, profile, max_rows=16, first_kern=0.6)
+def sess_c06(seed, profile='main', dots=False):
+    if dots:
+        # cells that LOOK like null tokens but are not ('...', '..', '.*'): a line holding one of them is not an all-null line
+        saved = dict(gen.OWNPOOL)
+        try:
+            for k in list(gen.OWNPOOL):
+                gen.OWNPOOL[k] = ['...', '..', 'la', '....']
+            r, lines, types = make_doc(seed, profile, max_rows=12, first_kern=0.8, types=['**text', '**dynam', '**harm', '**fing'], nonkern_tandem=False)
+        finally:
+            gen.OWNPOOL.update(saved)
+    else:
+        r, lines, types = make_doc(seed, profile, max_rows=16, first_kern=0.6)
     evs, doc, text = session.record_import(lines)
     if doc is not None:
         n = len(types)
@@ -266,6 +372,7 @@ def sess_c13(seed, profile='main', ntriples=36):
                 k = len(evs)
                 evs.append(session.record_call(doc, {'op': 'same_as', '_what': 'dumps', 'ref': k, 'args': session.dumps_args(**o),
                                                      '_form': r.randrange(9), '_explicit': True}))
+        reuse_probe(doc, seed, evs, 'dumps.same_with_reused_exporter_and_options_on_a_wider_document', profile=profile, need='wider', max_rows=8)
     return finish_session(lines, evs, text, seed, features(lines), agn_classes(lines))
 
 
@@ -308,6 +415,8 @@ def sess_c17(seed, profile='main', shared_vocab=False):
             evs.append(session.record_call(doc, {'op': 'meta', 'args': {'haskey': True, 'key': cps(key)}}))
         evs.append(session.record_call(doc, {'op': 'mono', 'args': {}}))
         evs.append(session.record_call(doc, {'op': 'spine_ids', 'args': {}}))
+        if seed % 40 == 0:
+            long_repetition_probe(seed, evs, 'listing')
     return finish_session(lines, evs, text, seed, features(lines) | ({'shared-vocabulary'} if shared_vocab else set()))
 
 
@@ -379,6 +488,9 @@ def sess_c07(seed, profile='kern_only', mixed=False, sigs=False, hidden=False):
                 evs.append(session.record_call(doc, {'op': 'dumps', 'args': session.dumps_args(types=ts, frm=a, to=b), 'strict': True}))
         # overlapping iterations also yield 1..M each (appended LAST: the listed cases of the fixed corpora are keyed by event position)
         evs.append(session.record_call(doc, {'op': 'iterpairs', 'args': {}}))
+        # one Exporter and one ExportOptions(from_measure=1, to_measure=M) for this score, a score with MORE measures and this score again
+        reuse_probe(doc, seed, evs, 'dumps.range_same_with_reused_exporter_and_options_on_a_longer_score', profile=profile, need='more_measures',
+                    ranged=True, spine_types=ts, **{k_: v_ for k_, v_ in over.items() if k_ != 'max_rows'}, max_rows=34)
     tags = features(lines)
     if mixed:
         tags.add('mixed-export-kern-only')
